@@ -116,7 +116,7 @@ pub fn check_case(ctx: &Ctx, case: &Case, with_cli: bool, t: &mut Tally) {
         t.set_insert("scale_factors", format!("{c}"));
     }
     // area: c x area divides the per-m2 figures by c and changes nothing else
-    let ca = *r.pick(&[2.0f32, 4.0, 0.5, 3.0, 10.0, 0.1]);
+    let ca = *r.pick(&[2.0f32, 4.0, 0.5, 3.0, 10.0, 0.1, 1.0e6, 1.0e9]);
     let area2 = case.area * ca;
     if area2 > 0.0011 {
         if let Some(ep2) = eval(PROP, case, &comps, &fac, case.k, area2, case.lm, t) {
@@ -141,6 +141,18 @@ pub fn check_case(ctx: &Ctx, case: &Case, with_cli: bool, t: &mut Tally) {
                     });
                     break;
                 }
+            }
+            // ... nor does the DHW renewable fraction depend on the area
+            let acs2 = safe::guard(|| cte::fraccion_renovable_acs_nrb(&ep2));
+            match (&acs0, &acs2) {
+                (Out::Ok(a), Out::Ok(b)) => {
+                    if !(((a - b).abs() as f64) <= 2e-6 * (a.abs() as f64).max(1.0) || (a.is_nan() && b.is_nan())) {
+                        t.violation("C11.dhw_fraction_changes_with_area", format!("renewable DHW fraction {a} at area {} becomes {b} at area {area2}", case.area), || case.witness());
+                    }
+                    t.count("dhw_fraction_area_pairs_compared");
+                }
+                (Out::Err(..), Out::Err(..)) => {}
+                (a, b) => t.violation("C11.dhw_fraction_changes_with_area", format!("renewable DHW fraction: {} at area {}, {} at area {area2}", a.describe(), case.area, b.describe()), || case.witness()),
             }
             t.count("area_scalings_checked");
         }
